@@ -37,6 +37,9 @@ type LogSink struct {
 	// OnLog, when set, is called (outside the sink's lock) for every log call.
 	OnLog     func(level, format string)
 	KeepDebug bool
+	// Budget, when > 0, is the maximum number of log calls of one case: a busy loop in the library
+	// logs on every turn, so exceeding the budget panics with the spinning goroutine's stack.
+	Budget int
 }
 
 // NewLogSink creates a sink.
@@ -52,7 +55,11 @@ func (s *LogSink) log(level, format string, args ...any) {
 		}
 	}
 	cb := s.OnLog
+	over := s.Budget > 0 && s.Total > s.Budget
 	s.mu.Unlock()
+	if over {
+		panic(fmt.Sprintf("verif: log-call budget exceeded (%d calls) - the library is busy-looping; last format %q", s.Total, format))
+	}
 	if cb != nil {
 		cb(level, format)
 	}
